@@ -602,6 +602,19 @@ package tree
 //@     invariant [rows] len(matrix) == len(tips) && (forall i int :: {matrix[i]} 0 <= i && i < len(tips) ==> len(matrix[i]) == len(tips))
 //@     invariant [ids] forall i int :: {tips[i]} 0 <= i && i < len(tips) ==> tips[i].id == i
 
+// AvgDistanceMatrix (property C14): every tree is measured with the same metric; a tree whose sorted tip names differ
+// from the first one's is an error; every entry accumulates the same entry of each further matrix and is finally
+// divided by the number of trees
+//@ func tree.AvgDistanceMatrix
+//@   flag noframe
+//@   requires treechan != nil
+//@   recv treechan [message_carries_a_tree] msg.Tree != nil
+//@   call (*tree.Tree).ToDistanceMatrix [every_tree_is_measured_with_the_requested_metric] a1 == metric && a0 == t.Tree
+//@   loop 4
+//@     step [entry_accumulates_the_same_entry_of_the_next_matrix] matrix[i][j] == atHead(matrix[i][j]) + atHead(matrix2[i][j])
+//@   loop 6
+//@     step [entry_divided_by_the_number_of_trees] matrix[i][j] == atHead(matrix[i][j]) / real(ntrees)
+
 // ---------------------------------------------------------------------------
 // Rename (property C18): the result is a function of the name index and the
 // map, whatever order Go iterates the map in (demonic map iteration)
